@@ -730,8 +730,155 @@ func runeSetStr(s map[rune]bool) string {
 
 // boolFuncRuneSet: for `func(r rune) bool { switch r { case …: return true } return false }` returns the set mapped to want.
 func (m *cfgModel) boolFuncRuneSet(fd *ast.FuncDecl, want bool) (map[rune]bool, bool) {
+	return m.boolFuncRuneSetRec(fd, want, 0)
+}
+
+// runesTrue: runes whose presence in the examined string (or equality with the examined rune) makes e true:
+// r == 'x', a || b, strings.ContainsAny(s, CONST), strings.ContainsRune(s, 'x'), strings.IndexAny(s, CONST) >= 0,
+// a predicate of the package applied to it, !e' for the complement form.
+func (m *cfgModel) runesTrue(e ast.Expr, depth int) map[rune]bool {
+	out := map[rune]bool{}
+	if depth > 4 || e == nil {
+		return out
+	}
+	add := func(s map[rune]bool) {
+		for r := range s {
+			out[r] = true
+		}
+	}
+	switch x := ast.Unparen(e).(type) {
+	case *ast.BinaryExpr:
+		switch x.Op {
+		case token.LOR:
+			add(m.runesTrue(x.X, depth+1))
+			add(m.runesTrue(x.Y, depth+1))
+		case token.EQL:
+			if r, ok := m.runeConst(x.Y); ok {
+				if _, isLit := ast.Unparen(x.Y).(*ast.BasicLit); isLit {
+					out[r] = true
+				}
+			}
+		case token.GEQ, token.NEQ, token.GTR:
+			// strings.IndexAny(s, CONST) >= 0 / != -1
+			if ce, ok := ast.Unparen(x.X).(*ast.CallExpr); ok {
+				if fn, _, _ := m.callee(ce); fn != nil && fn.Pkg() != nil && fn.Pkg().Path() == "strings" && (fn.Name() == "IndexAny" || fn.Name() == "IndexRune" || fn.Name() == "IndexByte") && len(ce.Args) == 2 {
+					add(m.constRunes(ce.Args[1]))
+				}
+			}
+		}
+	case *ast.CallExpr:
+		fn, _, _ := m.callee(x)
+		if fn == nil {
+			return out
+		}
+		if fn.Pkg() != nil && fn.Pkg().Path() == "strings" && len(x.Args) == 2 {
+			switch fn.Name() {
+			case "ContainsAny", "ContainsRune":
+				add(m.constRunes(x.Args[1]))
+			}
+			return out
+		}
+		if fd := m.decls[fn]; fd != nil {
+			sig := fn.Type().(*types.Signature)
+			if sig.Params().Len() == 1 && sig.Results().Len() == 1 && types.Identical(sig.Results().At(0).Type(), types.Typ[types.Bool]) {
+				if set, ok := m.boolFuncRuneSetRec(fd, true, depth+1); ok {
+					add(set)
+				}
+			}
+		}
+	}
+	return out
+}
+
+// runesFalse: runes whose presence makes e false: !e', a && b.
+func (m *cfgModel) runesFalse(e ast.Expr, depth int) map[rune]bool {
+	out := map[rune]bool{}
+	if depth > 4 || e == nil {
+		return out
+	}
+	switch x := ast.Unparen(e).(type) {
+	case *ast.UnaryExpr:
+		if x.Op == token.NOT {
+			return m.runesTrue(x.X, depth+1)
+		}
+	case *ast.BinaryExpr:
+		if x.Op == token.LAND {
+			for r := range m.runesFalse(x.X, depth+1) {
+				out[r] = true
+			}
+			for r := range m.runesFalse(x.Y, depth+1) {
+				out[r] = true
+			}
+		}
+		if x.Op == token.NEQ {
+			if r, ok := m.runeConst(x.Y); ok {
+				if _, isLit := ast.Unparen(x.Y).(*ast.BasicLit); isLit {
+					out[r] = true
+				}
+			}
+		}
+	}
+	return out
+}
+
+// constRunes: the runes of a constant string (or a constant rune).
+func (m *cfgModel) constRunes(e ast.Expr) map[rune]bool {
+	out := map[rune]bool{}
+	if sv, ok := m.stringConst(e); ok {
+		for _, r := range sv {
+			out[r] = true
+		}
+		return out
+	}
+	if r, ok := m.runeConst(e); ok {
+		out[r] = true
+	}
+	return out
+}
+
+func (m *cfgModel) boolFuncRuneSetRec(fd *ast.FuncDecl, want bool, depth int) (map[rune]bool, bool) {
 	out := map[rune]bool{}
 	ok := false
+	if fd == nil || depth > 4 {
+		return out, false
+	}
+	// conditions that decide the verdict directly: if C { return want }, and a final return of an expression
+	ast.Inspect(fd.Body, func(n ast.Node) bool {
+		switch x := n.(type) {
+		case *ast.IfStmt:
+			if len(x.Body.List) == 1 {
+				if rs, isRet := x.Body.List[0].(*ast.ReturnStmt); isRet && len(rs.Results) == 1 {
+					if id, isID := rs.Results[0].(*ast.Ident); isID && (id.Name == "true" || id.Name == "false") && (id.Name == "true") == want {
+						set := m.runesTrue(x.Cond, depth+1)
+						for r := range set {
+							out[r] = true
+						}
+						if len(set) > 0 {
+							ok = true
+						}
+					}
+				}
+			}
+		case *ast.ReturnStmt:
+			if len(x.Results) == 1 {
+				if _, isID := ast.Unparen(x.Results[0]).(*ast.Ident); !isID {
+					var set map[rune]bool
+					if want {
+						set = m.runesTrue(x.Results[0], depth+1)
+					} else {
+						set = m.runesFalse(x.Results[0], depth+1)
+					}
+					for r := range set {
+						out[r] = true
+					}
+					if len(set) > 0 {
+						ok = true
+					}
+				}
+			}
+		}
+		return true
+	})
 	for _, rc := range m.runeSwitches(fd.Body) {
 		if len(rc.clause.Body) == 1 {
 			if rs, isRet := rc.clause.Body[0].(*ast.ReturnStmt); isRet && len(rs.Results) == 1 {
@@ -1143,7 +1290,11 @@ func checkTokenTables(c *Ctx, m *cfgModel, rule string) {
 					if !ok || is.Body != child {
 						continue
 					}
-					if ce, ok := ast.Unparen(is.Cond).(*ast.CallExpr); ok && len(ce.Args) == 1 {
+					for _, cj := range splitAnd(is.Cond) {
+						ce, ok := ast.Unparen(cj).(*ast.CallExpr)
+						if !ok || len(ce.Args) != 1 {
+							continue
+						}
 						if fn, _, _ := m.callee(ce); fn != nil && m.decidesRawSpelling(fn, quoteFn) {
 							if aid, ok := ast.Unparen(ce.Args[0]).(*ast.Ident); ok && m.info.Uses[aid] == pv {
 								if _, hasReject := m.boolFuncRuneSet(m.decls[fn], false); hasReject {
@@ -1189,11 +1340,16 @@ func (m *cfgModel) decidesRawSpelling(pred, quoteFn *types.Func) bool {
 			if !ok {
 				return true
 			}
-			ce, ok := is.Cond.(*ast.CallExpr)
-			if !ok {
-				return true
+			// the predicate is the condition or one of its conjuncts (!quoted && pred(v))
+			var ce *ast.CallExpr
+			for _, cj := range splitAnd(is.Cond) {
+				if c2, ok := ast.Unparen(cj).(*ast.CallExpr); ok {
+					if fn, _, _ := m.callee(c2); fn == pred {
+						ce = c2
+					}
+				}
 			}
-			if fn, _, _ := m.callee(ce); fn != pred {
+			if ce == nil {
 				return true
 			}
 			if len(is.Body.List) == 1 {
@@ -1216,6 +1372,51 @@ func (m *cfgModel) decidesRawSpelling(pred, quoteFn *types.Func) bool {
 
 func (m *cfgModel) rejectsEmpty(fd *ast.FuncDecl) bool {
 	ok := false
+	// "" has no non-empty prefix: if !strings.HasPrefix(x, "/") { return false } rejects it too
+	ast.Inspect(fd.Body, func(n ast.Node) bool {
+		is, isIf := n.(*ast.IfStmt)
+		if !isIf || len(is.Body.List) != 1 {
+			return true
+		}
+		rs, isRet := is.Body.List[0].(*ast.ReturnStmt)
+		if !isRet || len(rs.Results) != 1 {
+			return true
+		}
+		if id, isID := rs.Results[0].(*ast.Ident); !isID || id.Name != "false" {
+			return true
+		}
+		// top-level disjuncts of the condition
+		var disj []ast.Expr
+		var split func(e ast.Expr)
+		split = func(e ast.Expr) {
+			if be, isBE := ast.Unparen(e).(*ast.BinaryExpr); isBE && be.Op == token.LOR {
+				split(be.X)
+				split(be.Y)
+				return
+			}
+			disj = append(disj, ast.Unparen(e))
+		}
+		split(is.Cond)
+		for _, d := range disj {
+			ue, isU := d.(*ast.UnaryExpr)
+			if !isU || ue.Op != token.NOT {
+				continue
+			}
+			ce, isCall := ast.Unparen(ue.X).(*ast.CallExpr)
+			if !isCall || len(ce.Args) != 2 {
+				continue
+			}
+			if fn, _, _ := m.callee(ce); fn != nil && fn.Pkg() != nil && fn.Pkg().Path() == "strings" && (fn.Name() == "HasPrefix" || fn.Name() == "HasSuffix" || fn.Name() == "Contains") {
+				if v, isS := m.stringConst(ce.Args[1]); isS && v != "" {
+					ok = true
+				}
+			}
+		}
+		return true
+	})
+	if ok {
+		return true
+	}
 	ast.Inspect(fd.Body, func(n ast.Node) bool {
 		is, isIf := n.(*ast.IfStmt)
 		if !isIf {
